@@ -106,8 +106,8 @@ func pvGenOp(t *rapid.T, typ string, depth int, cur *aValue, info *pvInfo) *aVal
 	switch v.Op {
 	case "set":
 		if typ == "number" {
-			v.B = make([]byte, 8)
-			copy(v.B, rapid.SliceOfN(rapid.Byte(), 0, 8).Draw(t, "numBytes"))
+			// a number register may be set from a payload of 0..8 bytes (read little-endian, zero-extended)
+			v.B = rapid.SliceOfN(rapid.Byte(), 0, 8).Draw(t, "numBytes")
 		} else {
 			v.B = payload("setPayload", 0)
 		}
